@@ -8,6 +8,7 @@ import (
 	corev1 "k8s.io/api/core/v1"
 	netv1 "k8s.io/api/networking/v1"
 	metav1 "k8s.io/apimachinery/pkg/apis/meta/v1"
+	"k8s.io/apimachinery/pkg/apis/meta/v1/unstructured"
 	"k8s.io/apimachinery/pkg/util/intstr"
 	"k8s.io/cli-runtime/pkg/resource"
 )
@@ -40,6 +41,7 @@ func (t Target) k8s() intstr.IntOrString {
 }
 
 type SvcPort struct {
+	Proto  string // "" = TCP
 	Name   string
 	Port   int
 	Target Target
@@ -74,13 +76,18 @@ func (s Svc) Info() *resource.Info {
 	o := &corev1.Service{ObjectMeta: metav1.ObjectMeta{Name: s.Name, Namespace: s.NS}}
 	o.Spec.Selector = s.Sel
 	for _, p := range s.Ports {
-		sp := corev1.ServicePort{Name: p.Name, Port: int32(p.Port)}
+		sp := corev1.ServicePort{Name: p.Name, Port: int32(p.Port), Protocol: corev1.Protocol(p.Proto)}
 		if p.Target.Set {
 			sp.TargetPort = p.Target.k8s()
 		}
 		o.Spec.Ports = append(o.Spec.Ports, sp)
 	}
-	return info(o, "v1", "Service")
+	inf := info(o, "v1", "Service")
+	if s.Sel != nil && len(s.Sel) == 0 {
+		// selector: {} written out (the conversion drops an empty map): for a Service it means "no selector", like the omitted field
+		inf.Object.(*unstructured.Unstructured).Object["spec"].(map[string]interface{})["selector"] = map[string]interface{}{}
+	}
+	return inf
 }
 
 func (i Ing) Info() *resource.Info {
@@ -114,6 +121,9 @@ func (r Route) Info() *resource.Info {
 // access: the TCP container port of wl reached through service port sp (targetPort number, or name
 // resolved on wl, defaulting to the port).
 func access(wl *Workload, sp SvcPort) (int, bool) {
+	if protoOf(sp.Proto) != "TCP" {
+		return 0, false // a UDP / SCTP service port forwards no TCP
+	}
 	num := sp.Port
 	if sp.Target.Set {
 		if sp.Target.Name != "" {
@@ -219,6 +229,9 @@ func (w *World) RefIngress(wi int, model IngressModel) (ports map[int]bool, targ
 			}
 			targeted = true
 			for _, sp := range s.Ports {
+				if b.PortName == "" && protoOf(sp.Proto) != "TCP" {
+					continue // a backend number designates the TCP service port of that number (a service may use one number per protocol)
+				}
 				m := (b.PortName != "" && sp.Name == b.PortName) || (b.PortName == "" && sp.Port == b.PortNum)
 				if model == IngressDefectTargetPort && b.PortName == "" && sp.Target.Set && sp.Target.Name == "" && sp.Target.Num == b.PortNum {
 					m = true
